@@ -231,6 +231,9 @@ type C12Sc struct {
 	// 2 CorrelationValueMiddleware, 4 TimeoutMiddleware, 8 DebugMiddleware with a JSON marshaller. They see every
 	// response before the checks of the call do, and the statement holds with or without them
 	Mw int `json:"mw,omitempty"`
+	// CloseAfter: the server closes the connection right after each reply (as servers do after refusing a request):
+	// the reply was sent all the same, and it is the reply the call must be judged by
+	CloseAfter bool `json:"close_after,omitempty"`
 }
 
 var statusVals = []kmip.ResultStatus{kmip.ResultStatusSuccess, kmip.ResultStatusOperationFailed, kmip.ResultStatusOperationPending, kmip.ResultStatusOperationUndone, kmip.ResultStatus(9)}
@@ -344,6 +347,9 @@ func genC12(g *simrt.Tape, tier string) any {
 	if g.Draw(3) == 0 {
 		sc.Mw = 1 + g.Draw(15)
 	}
+	// (only where the call is a single exchange on a fresh connection: after a close the next exchange of the same
+	// client may fail for reasons that are C11's, not the response's)
+	sc.CloseAfter = sc.Discovery == nil && sc.Signer == nil && g.Draw(3) == 0
 	return sc
 }
 
@@ -385,6 +391,12 @@ func c12Floor(tier string) []*C12Sc {
 	for op := range opCases {
 		for _, sb := range singles {
 			out = append(out, &C12Sc{Op: op, Subst: sb})
+		}
+	}
+	// ... and with a server that hangs up right after each reply
+	for _, op := range []int{0, 10} {
+		for _, sb := range singles {
+			out = append(out, &C12Sc{Op: op, Subst: sb, CloseAfter: true})
 		}
 	}
 	// the same single substitutions seen through the library's own middlewares first
@@ -635,6 +647,9 @@ func execC12(x *X, scAny any) {
 	sc := scAny.(*C12Sc)
 	s := x.S
 	csc := &ClientSc{Prop: "C12", Enforce: sc.Discovery == nil, Chunk: sc.Chunk}
+	if sc.CloseAfter {
+		csc.Behav = []ReqBehav{{CloseAfter: true}}
+	}
 	w := newClientWorld(x, csc)
 	w.loose = true
 	var sent []c12Sent
